@@ -10,6 +10,7 @@ pub mod c09;
 pub mod c10;
 pub mod c11;
 pub mod c12;
+pub mod c13;
 pub mod c18;
 pub mod c19;
 
@@ -25,6 +26,7 @@ pub fn dispatch(engine: &str, sh: &mut Shard) -> bool {
         "c10" => c10::run(sh),
         "c11" => c11::run(sh),
         "c12" => c12::run(sh),
+        "c13" => c13::run(sh),
         "c18" => c18::run(sh),
         "c19" => c19::run(sh),
         _ => return false,
